@@ -61,15 +61,57 @@ pub(crate) fn c18_pack_sizer_predicates() {
 
 fn bid(b: u8) -> BlobId { BlobId::from(vh::mk_id(b)) }
 
-//@ harness: c08_packer_accounting
+//@ harness: c08_packer_add_raw
 //@ prop: C08 C07
 //@ tier: quick
+//@ timeout: 900
+//@ mem: 12
+//@ kernel: BasicPacker::{new, add_raw, write_data, has}, IndexPack::add
+//@ bound: two add_raw calls with blobs of 3 and 2 symbolic bytes (leaked static Bytes), blob ids symbolic in a 3-element domain (so "already in this pack" occurs), symbolic uncompressed length; unwind 34
+//@ oracle: the index lists the blobs in insertion order at contiguous offsets from 0 with the data's lengths, ids, type and recorded uncompressed length; size and count follow; an id already in the open pack adds nothing
+//@ stub: SystemTime::now; Backtrace::capture
+//@ assume: blobs are non-empty
+//@ outside: write_header / take_data accounting (c08_packer_header_and_take, experimental: SAT memory > 16 GB), the binrw byte encoding of header entries, which bytes the threaded Actor hashes and writes, repair_index
+#[kani::proof]
+#[kani::unwind(34)]
+#[kani::stub(std::time::SystemTime::now, crate::error::verif_harness::stub_systime_now)]
+#[kani::stub(std::backtrace::Backtrace::capture, crate::error::verif_harness::stub_backtrace_capture)]
+pub(crate) fn c08_packer_add_raw() {
+    let mut p = BasicPacker::new(BlobType::Data, PackSizer::fixed(kani::any()));
+    let d0: &'static mut [u8; 3] = Box::leak(Box::new(kani::any()));
+    let d1: &'static mut [u8; 2] = Box::leak(Box::new(kani::any()));
+    let (i0, i1): (u8, u8) = (kani::any(), kani::any());
+    kani::assume(i0 < 3 && i1 < 3);
+    let ul: u32 = kani::any();
+    p.add_raw(Bytes::from_static(&*d0), &bid(i0), 3, NonZeroU32::new(ul)).unwrap();
+    p.add_raw(Bytes::from_static(&*d1), &bid(i1), 2, None).unwrap();
+    let blobs = &p.index.blobs;
+    assert!(blobs[0].location.offset == 0 && blobs[0].location.length == 3);
+    assert!(blobs[0].id == bid(i0) && blobs[0].tpe == BlobType::Data);
+    assert!(blobs[0].location.uncompressed_length == NonZeroU32::new(ul));
+    if i0 == i1 {
+        // an id already in the open pack adds nothing
+        assert!(blobs.len() == 1 && p.size == 3 && p.count == 1);
+    } else {
+        assert!(blobs.len() == 2 && p.size == 5 && p.count == 2);
+        assert!(blobs[1].location.offset == 3 && blobs[1].location.length == 2);
+        assert!(blobs[1].id == bid(i1));
+        assert!(blobs[1].location.uncompressed_length.is_none());
+    }
+    kani::cover!(i0 == i1, "second blob already in the open pack");
+    kani::cover!(i0 != i1, "two blobs at contiguous offsets");
+    std::mem::forget(p);
+}
+
+//@ harness: c08_packer_header_and_take
+//@ prop: C08 C07
+//@ tier: experimental
 //@ timeout: 1200
 //@ mem: 12
 //@ kernel: BasicPacker::{new, add_raw, write_data, has, is_empty, write_header, take_data}, IndexPack::{add, pack_size}, PackHeaderRef::{from_index_pack, size, pack_size}, HeaderEntry::{from_blob, length}, PackSizer::add_size
 //@ bound: two add_raw calls with blobs of 3 and 2 symbolic bytes (leaked static Bytes), blob ids symbolic in a 3-element domain (so "already in this pack" occurs), symbolic uncompressed lengths; then write_header with a header of the computed size (36 or 73/77/81 bytes, symbolic content) and take_data; unwind 36
 //@ oracle: the index lists the blobs in insertion order at contiguous offsets from 0 with the data's lengths; the pack bytes at [offset, offset+length) are exactly the data added; an id already in the open pack adds nothing; write_header appends the header and then the 4 bytes the length encoder returns; IndexPack::pack_size() == number of bytes in the file when the header has PackHeaderRef::size() bytes; take_data resets size and count and returns exactly file and index
-//@ stub: PackHeaderLength::to_binary -> arbitrary 4 bytes (binrw out of reach, DESIGN C08); SystemTime::now; Backtrace::capture; fmt::format
+//@ stub: PackHeaderLength::to_binary -> arbitrary 4 bytes (binrw out of reach, DESIGN C08); SystemTime::now; Backtrace::capture; fmt::format; ToString::to_string -> empty string (error context values only); RusticError text
 //@ assume: blobs are non-empty
 //@ outside: the binrw byte encoding of header entries and of the length field; which bytes the threaded Actor hashes and writes; repair_index
 #[kani::proof]
@@ -84,7 +126,8 @@ fn bid(b: u8) -> BlobId { BlobId::from(vh::mk_id(b)) }
 #[kani::stub(crate::error::RusticError::attach_source, crate::error::verif_harness::stub_attach_source)]
 #[kani::stub(alloc::fmt::format, crate::error::verif_harness::stub_format)]
 #[kani::stub(crate::repofile::packfile::PackHeaderLength::to_binary, crate::repofile::packfile::verif_harness::stub_len_to_binary)]
-pub(crate) fn c08_packer_accounting() {
+#[kani::stub(alloc::string::ToString::to_string, crate::error::verif_harness::ToStringModel::to_string)]
+pub(crate) fn c08_packer_header_and_take() {
     let mut p = BasicPacker::new(if kani::any() { BlobType::Data } else { BlobType::Tree }, PackSizer::fixed(kani::any()));
     assert!(p.is_empty());
     let d0: &'static mut [u8; 3] = Box::leak(Box::new(kani::any()));
